@@ -129,9 +129,19 @@ def _merge_conditional_assignments(body):
             if a is not None and not st.orelse and out:
                 prev = out[-1]
                 if isinstance(prev, ast.Assign) and len(prev.targets) == 1 and isinstance(prev.targets[0], ast.Name) and prev.targets[0].id == a.targets[0].id \
-                        and _simple_value(prev.value) and a.targets[0].id not in {n.id for n in ast.walk(st.test) if isinstance(n, ast.Name)}:
-                    out[-1] = ast.copy_location(ast.Assign(targets=[ast.Name(id=a.targets[0].id, ctx=ast.Store())],
-                                                           value=_canon_ifexp(ast.copy_location(ast.IfExp(test=st.test, body=a.value, orelse=prev.value), st))), prev)
+                        and _simple_value(prev.value):
+                    x = a.targets[0].id
+                    test = st.test
+                    if x in {n.id for n in ast.walk(test) if isinstance(n, ast.Name)}:
+                        # the test reads the value just assigned: `x = D; if x is None: x = V`  ->  `x = V if D is None else D`
+                        import copy as _copy
+
+                        class _S(ast.NodeTransformer):
+                            def visit_Name(self, n_):
+                                return _copy.deepcopy(prev.value) if n_.id == x and isinstance(n_.ctx, ast.Load) else n_
+                        test = _S().visit(_copy.deepcopy(test))
+                    out[-1] = ast.copy_location(ast.Assign(targets=[ast.Name(id=x, ctx=ast.Store())],
+                                                           value=_canon_ifexp(ast.copy_location(ast.IfExp(test=test, body=a.value, orelse=prev.value), st))), prev)
                     continue
         out.append(st)
     return out
